@@ -13,6 +13,7 @@ Require Model.Ssa Model.SsaPre Model.LiftFull Proofs.CtlChain Proofs.CtlChainExa
 Require Import Proofs.DegRunBranch Proofs.DegRunDecided.
 Require Import Model.DegJustifyLe Proofs.DegGraphLe.
 Require Proofs.CtlChainRuns Proofs.CtlChainRunsExample.
+Require Model.DegLoops Proofs.DegRunLoops Proofs.DegRunLoopsExample.
 Import ListNotations.
 Local Open Scope Z_scope.
 
@@ -132,23 +133,59 @@ Print Assumptions C07_inf_bound_sound.
          whose assignment has not fired: nobody has evaluated it), and the variant "leaves
          the choice unconstrained" is unsound for a relation without program counter.
 
+     (3'') C07_loops_runs_represented / C07_loops_runs_claims_true (proof round 4) - graphs WITH
+         LOOPS whose runs differ inside the loop bodies but stay in step at the loop headers: the
+         path of every valuation is cut into ASCENDING SEGMENTS (a new segment starts where a back
+         edge is taken) and the segments of all valuations start with the same blocks (same number
+         of header entries, in the same order; inside a segment every valuation goes its own
+         way).  The lock-step relation fires, once per segment and in index order, every block
+         some run visits in that segment, for all valuations; on the next iteration this
+         OVERWRITES a cell for the valuations that skip the assignment then.  Proved harmless: the
+         invariant speaks of the cells that are VALID for a run (their defining block was last
+         fired at a step the run took part in), every read of a run names the running version
+         (C14's validator, SsaCheck.infos_ok) and a cell holding the running version is valid.
+         The last step needs that the version current at the exit of a block is never one that a
+         block with a LARGER index assigns: Model.DegLoops.no_future_version, decidable on the
+         validator's maps, part of Model.DegLoops.loops_ok (with single assignment, every
+         assigned local carries a version, update bases are assigned by no statement).
+         Conclusion: ONE reachable store that holds, at every valuation, every cell of the run's
+         final store that the run can still read (the running version of its variable, or a name
+         the graph never assigns: [current_at]); hence every claim of a validated graph on an
+         expression whose reads are current at the end of the runs is true of
+         valuation |-> concrete value.
+         ASSUMED of the family there (as in (3') before its derivation): [picks_decided_sched] -
+         two runs that enter a block in the same segment with different arriving phi arguments
+         enter a join and differ on a deciding condition whose operands are valid for both and
+         are not merged by a phi of that same block.
+     (3''') C07_varying_decider_phi_no_low_claim - towards loops with a valuation-dependent trip
+         count: in a validated graph a phi of a join one of whose deciding conditions varies with
+         the valuation in some reachable store (the loop condition of such a loop is one: it ends
+         the header, which lies on the dominator chain of the back edge) carries no claim or a
+         claim with upper end NonQuadratic.
+
    NOT PROVED - OPEN (reported under coverage.open_statements by the check):
-     (a) families of concrete runs whose paths DIFFER: PROVED for loop-free graphs (3').
-         OPEN: graphs WITH LOOPS whose runs differ inside the loop bodies but enter the loop
-         headers in the same sequence: the schedule of (3') overwrites a cell on its next
-         iteration for valuations that skip the assignment then, which is harmless only
-         because SSA form never lets them read it again (needs C14's "every read names the
-         running version"; not done).
+     (a) families of concrete runs whose paths DIFFER: PROVED for loop-free graphs (3') and, under
+         the assumption [picks_decided_sched], for graphs with loops whose runs stay in step at
+         the headers (3'').  OPEN: deriving that assumption from the graph as (3') does
+         (Proofs.DegRunLoops.C07_loops_picks_decided_full_statement; the parting-block argument of
+         Proofs.DegRunDecided has to be redone per segment, and a deciding condition that reads a
+         phi target of the very block it decides - `x = phi(..)` at a header, `if (x == s)` in
+         the body, both arms jumping back - is read by Spec.DegSem.cond_fixed AFTER an earlier phi
+         of the block has overwritten it: the relation may then be too strict, not the analysis).
+         Claims on expressions in the MIDDLE of a block whose operands are re-assigned later in
+         the same block are covered by (1) for the store, but (3'') relates only the cells that
+         are current at the END of the runs to concrete values.
          For loops with a valuation-dependent trip count no lock-step store represents the
          family at all (a valuation that has left the loop cannot keep its value while the
          body fires again for the others); the claims are nevertheless believed true there
          because the header phis are then judged with a non-constant deciding condition
-         (the loop condition ends the header block, which is on the dominator chain of the
-         back edge) and get upper end NonQuadratic, and everything computed from them
-         inherits it.  The check's oracle judges such programs per iteration context (the
-         stack of enclosing loops with their iteration numbers): a claim is compared on the
-         runs that reach the node in the same context (evidence key degree_oracle; contexts
-         reached by too few runs are counted as discarded_signal_dependent_paths).
+         and get upper end NonQuadratic (now PROVED: (3''')), and everything computed from them
+         inherits it.  The full statement is Proofs.DegRunLoops.
+         C07_valuation_dependent_trip_counts_full_statement.  The check's oracle judges such
+         programs per iteration context (the stack of enclosing loops with their iteration
+         numbers): a claim is compared on the runs that reach the node in the same context
+         (evidence key degree_oracle; contexts reached by too few runs are counted as
+         discarded_signal_dependent_paths).
      (b) that [decides] names EVERY block whose decision can change the incoming edge is
          PROVED for an IR graph that has, block by block, the predecessor and successor lists
          of a lifted skeleton (C07_lifted_split_is_named_by_decides, from
@@ -884,3 +921,108 @@ Example C07_weaker_validator_example :
   djust_cfg_le (exr_graph) exr_idom = true /\
   djust_cfg_le (exc_graph (Some (DNonQuad, DNonQuad)) exa_cc) exr_idom = false.
 Proof. vm_compute. repeat split; reflexivity. Qed.
+
+(* (3'') GRAPHS WITH LOOPS, runs in step at the loop headers (proof round 4).  The path of the
+   valuation rho is  concat (sg rho) : its ascending segments (a new segment starts where the run
+   takes a back edge); all valuations have the same number of segments and their segments start
+   with the same blocks [heads]; finitely many classes [reps].  For a graph that passes C14's
+   validator (infos_ok), is consistent and passes the decidable Model.DegLoops.loops_ok (single
+   assignment; assigned locals carry versions; update bases are never assigned; the version
+   current at the exit of a block is not assigned by a later block), and under the assumption
+   [picks_decided_sched] about the phi choices (cf. C07_diverging_runs_represented), ONE store
+   reachable by the lock-step relation holds, at every valuation, every cell of the final store of
+   its run that is still CURRENT: a name the graph never assigns, or the running version of its
+   variable at the end of the path. *)
+Theorem C07_loops_runs_represented :
+  forall (V : Type) (p : Z) (sem2 : infix_op -> Z -> Z -> Z) (sem1 : prefix_op -> Z -> Z)
+         (call_sem : ident -> list Z -> Z) (name_code : ident -> Z)
+         (c : cfg) (idom : list (option N)) (infos : list binfo) (S0 : fstore V)
+         (sg : V -> list (list nat)) (heads : list nat) (s0 s : V -> cstore) (reps : list V),
+  infos_ok infos c = true -> graph_consistent c = true -> DegLoops.loops_ok infos c = true ->
+  (forall rho, map (hd 0%nat) (sg rho) = heads /\ Forall (fun seg => seg <> []) (sg rho)) ->
+  (forall rho, Forall (StronglySorted lt) (sg rho)) ->
+  (forall rho, exists r, In r reps /\ sg r = sg rho) ->
+  (forall rho, exists tl, concat (sg rho) = 0%nat :: tl) ->
+  (forall rho, rel_store V rho (s0 rho) S0) ->
+  (forall rho, cexec_path p sem2 sem1 call_sem name_code c (params_map (c_params c)) (s0 rho) (concat (sg rho)) = Some (s rho)) ->
+  DegRunLoops.picks_decided_sched V p sem2 sem1 call_sem name_code c idom (params_map (c_params c)) s0 reps
+                      (length heads * length (c_blocks c)) (DegRunLoops.blk_s c) (DegRunLoops.vis_s V c sg) ->
+  exists S, freachable V p sem2 sem1 call_sem name_code c idom S0 S /\
+            forall rho x v, DegRunLoops.current_at c (concat (sg rho)) x -> s rho x = Some v ->
+                            exists F, S x = Some F /\ rel_cell V rho v F.
+Proof. exact DegRunLoops.loops_runs_represented. Qed.
+Print Assumptions C07_loops_runs_represented.
+
+(* ... hence every claim of the graph on an expression whose operands are current at the end of the
+   runs is true of the function  valuation |-> concrete value *)
+Theorem C07_loops_runs_claims_true :
+  forall (V : Type) (line : V -> V -> Z -> V) (p : Z)
+         (sem2 : infix_op -> Z -> Z -> Z) (sem1 : prefix_op -> Z -> Z) (call_sem : ident -> list Z -> Z)
+         (name_code : ident -> Z),
+  (forall op, op_den p op (sem2 op)) -> (forall op, prefix_den p op (sem1 op)) ->
+  forall (c : cfg) (idom : list (option N)) (infos : list binfo) (S0 : fstore V)
+         (sg : V -> list (list nat)) (heads : list nat) (s0 s : V -> cstore) (reps : list V),
+  djust_cfg c idom = true -> finit_ok V line p c S0 ->
+  infos_ok infos c = true -> graph_consistent c = true -> DegLoops.loops_ok infos c = true ->
+  (forall rho, map (hd 0%nat) (sg rho) = heads /\ Forall (fun seg => seg <> []) (sg rho)) ->
+  (forall rho, Forall (StronglySorted lt) (sg rho)) ->
+  (forall rho, exists r, In r reps /\ sg r = sg rho) ->
+  (forall rho, exists tl, concat (sg rho) = 0%nat :: tl) ->
+  (forall rho, rel_store V rho (s0 rho) S0) ->
+  (forall rho, cexec_path p sem2 sem1 call_sem name_code c (params_map (c_params c)) (s0 rho) (concat (sg rho)) = Some (s rho)) ->
+  DegRunLoops.picks_decided_sched V p sem2 sem1 call_sem name_code c idom (params_map (c_params c)) s0 reps
+                      (length heads * length (c_blocks c)) (DegRunLoops.blk_s c) (DegRunLoops.vis_s V c sg) ->
+  forall e r (val : V -> cell),
+  djust_expr c e = true -> expr_deg e = Some r ->
+  (forall rho, cval p sem2 sem1 call_sem name_code (s rho) e = Some (val rho)) ->
+  (forall rho y, In y (expr_reads e) -> DegRunLoops.current_at c (concat (sg rho)) y) ->
+  forall i, SemDeg V line p (snd r) (fun rho => val rho i).
+Proof. exact DegRunLoops.loops_runs_claims_true. Qed.
+Print Assumptions C07_loops_runs_claims_true.
+
+(* (3''') towards valuation-dependent trip counts: a phi of a join that has a deciding condition
+   whose value varies with the valuation in some reachable store carries no claim, or one with
+   upper end NonQuadratic *)
+Theorem C07_varying_decider_phi_no_low_claim :
+  forall (V : Type) (line : V -> V -> Z -> V) (p : Z)
+         (sem2 : infix_op -> Z -> Z -> Z) (sem1 : prefix_op -> Z -> Z) (call_sem : ident -> list Z -> Z)
+         (name_code : ident -> Z),
+  (forall op, op_den p op (sem2 op)) -> (forall op, prefix_den p op (sem1 op)) ->
+  forall (c : cfg) (idom : list (option N)) (S0 S : fstore V) (b : block) m x op args k sv st
+         (cond : expr) (C : fam V) (r1 r2 : V),
+  djust_cfg c idom = true -> finit_ok V line p c S0 ->
+  freachable V p sem2 sem1 call_sem name_code c idom S0 S ->
+  In b (c_blocks c) -> In (SSubst m x op (EPhi args k) sv st) (b_stmts b) -> (2 <= length (b_preds b))%nat ->
+  decides c idom b cond -> den V p sem2 sem1 call_sem name_code S cond = Some C -> C [] r1 <> C [] r2 ->
+  kdeg k = None \/ exists rg, kdeg k = Some rg /\ snd rg = DNonQuad.
+Proof. exact DegRunLoops.varying_decider_phi_no_low_claim. Qed.
+Print Assumptions C07_varying_decider_phi_no_low_claim.
+
+(* the hypotheses of C07_loops_runs_represented are satisfiable on a graph with a loop that is not
+   covered by the loop-free theorems (forward_b = false):
+     i = 0;  while (i < 2) { if (a + i == 1) { b <-- i + 5; } else { b2 <-- i + 3; }  i = i + 1; }  b <-- i;
+   blocks 0 -> 1 (header) -> 2 -> 3 | 4 -> 5 -> 1, 1 -> 6; two valuations of the signal a: one takes
+   the then-arm in the first iteration and the else-arm in the second, the other the other way
+   round; both enter the header three times (segments start at blocks 0, 1, 1) *)
+Example C07_loops_example :
+  compute_infos (c_params DegRunLoopsExample.lx_g) DegRunLoopsExample.lx_idom (c_blocks DegRunLoopsExample.lx_g) [] = Some DegRunLoopsExample.lx_infos /\
+  infos_ok DegRunLoopsExample.lx_infos DegRunLoopsExample.lx_g = true /\ graph_consistent DegRunLoopsExample.lx_g = true /\
+  idom_is_dominator_table DegRunLoopsExample.lx_g DegRunLoopsExample.lx_idom = true /\
+  DegLoops.loops_ok DegRunLoopsExample.lx_infos DegRunLoopsExample.lx_g = true /\ forward_b DegRunLoopsExample.lx_g = false /\
+  (forall rho, map (hd 0%nat) (DegRunLoopsExample.lx_sg rho) = DegRunLoopsExample.lx_heads /\
+               Forall (fun seg => seg <> []) (DegRunLoopsExample.lx_sg rho)) /\
+  (forall rho, Forall (StronglySorted lt) (DegRunLoopsExample.lx_sg rho)) /\
+  (forall rho, exists r, In r [true; false] /\ DegRunLoopsExample.lx_sg r = DegRunLoopsExample.lx_sg rho) /\
+  (forall rho, exists tl, concat (DegRunLoopsExample.lx_sg rho) = 0%nat :: tl) /\
+  (forall rho, rel_store bool rho (DegRunLoopsExample.lx_s0 rho) DegRunLoopsExample.lx_S0) /\
+  (forall rho, cexec_path 7 DegRunLoopsExample.lx_sem2 DegRunLoopsExample.lx_sem1 DegRunLoopsExample.lx_call DegRunLoopsExample.lx_code
+                 DegRunLoopsExample.lx_g (params_map (c_params DegRunLoopsExample.lx_g)) (DegRunLoopsExample.lx_s0 rho)
+                 (concat (DegRunLoopsExample.lx_sg rho)) = Some (DegRunLoopsExample.lx_s rho)) /\
+  DegRunLoops.picks_decided_sched bool 7 DegRunLoopsExample.lx_sem2 DegRunLoopsExample.lx_sem1 DegRunLoopsExample.lx_call
+     DegRunLoopsExample.lx_code DegRunLoopsExample.lx_g DegRunLoopsExample.lx_idom (params_map (c_params DegRunLoopsExample.lx_g))
+     DegRunLoopsExample.lx_s0 [true; false]
+     (length DegRunLoopsExample.lx_heads * length (c_blocks DegRunLoopsExample.lx_g))
+     (DegRunLoops.blk_s DegRunLoopsExample.lx_g) (DegRunLoops.vis_s bool DegRunLoopsExample.lx_g DegRunLoopsExample.lx_sg) /\
+  concat (DegRunLoopsExample.lx_sg true) <> concat (DegRunLoopsExample.lx_sg false) /\
+  (forall rho, match DegRunLoopsExample.lx_s rho (DegRunLoopsExample.lx_i 1) with Some f => f [] | None => 0 end = 2).
+Proof. exact DegRunLoopsExample.loops_example. Qed.
